@@ -662,6 +662,8 @@ def main(argv):
         log("VIOLATION property=%s replay=%s unit=%s obligation=%s%s" % (
             prop, rp, r.unit.name, json.dumps(r.reason[:200]), tail))
         exit_code = 1
+    if not results and not fatal:
+        fatal = "no unit selected: nothing was checked"
     if exit_code == 0 and (und or fatal):
         exit_code = 2
         for r in und:
